@@ -86,7 +86,7 @@ for w, tier in (("u8_u16", "quick"), ("u32_u64", "quick"), ("u8_u32", "quick"), 
          text="for ANY words d (incl. trailing zero words, empty): into_binary(from_binary(d)) == d; num_valid_bits == wb*|d|; get_binary shows d and restores the coder")
     kani(f"ans_io::{w}::binary_export_any", ["C04"], tier=tier, fns=[ST + "into_binary", ST + "from_binary"],
          text="into_binary is Ok iff the payload is a whole number of words; then from_binary inverts it")
-    kani(f"ans_io::{w}::guard_compressed", ["C08"], tier=tier, fns=[ST + "get_compressed", "stack.rs::CoderGuard<SEALED=false>::{new,drop}"],
+    kani(f"ans_io::{w}::guard_compressed", ["C08", "C01"], tier=tier, fns=[ST + "get_compressed", "stack.rs::CoderGuard<SEALED=false>::{new,drop}"],
          text="get_compressed view == what into_compressed would return; drop restores (bulk,state)")
     kani(f"ans_io::{w}::pos_seek", ["C07"], tier=tier, fns=["stack.rs::<AnsCoder as Pos>::pos", "stack.rs::<AnsCoder as Seek>::seek"],
          text="pos()==(|bulk|,state); seek((p,s)) truncates to p and installs s; p > |bulk| refused, coder unchanged")
@@ -98,6 +98,8 @@ kani("ans_io::batch_reverse_ans_u8_u16_p3", ["C01"], kind="bounded", bound="2 sy
      fns=[ST + "encode_symbols_reverse", ST + "try_encode_symbols_reverse", ST + "encode_iid_symbols_reverse"])
 
 # ---------------- Verus unit: ANS (stack.rs)
+kani("ans_io::slice_constructors_u8_u16", ["C01", "C04"], fns=[ST + "from_compressed_slice", ST + "from_binary_slice", ST + "from_reversed_binary"],
+     text="slice / reversed constructors leave the same (state, remaining words) as the owning constructors over the same words")
 kani("ans_io::views_u8_u16", ["C08", "C01", "C07"], fns=[ST + "as_decoder", ST + "as_seekable_decoder", ST + "into_decoder", ST + "from_reversed_compressed"],
      text="as_decoder / as_seekable_decoder show exactly the encoder's (words, state) and leave it untouched; into_decoder keeps them; from_reversed_compressed(reversed export) is the coder again")
 _ANS_IMPL_ENC = "Encode<PRECISION>\n    for AnsCoder<Word, State, Backend>"
@@ -226,6 +228,7 @@ for h, fns, txt in [
     ("vec_backend", ["<Vec as WriteWords>::write", "<Vec as ReadWords<Stack>>::read", "<Vec as Seek>::seek", "<Vec as Pos>::pos"], "Vec is a LIFO; seek truncates; beyond end refused"),
 ]:
     kani("backends::" + h, ["C17", "C20"] + (["C07"] if h in ("cursor_seek", "vec_backend") else []) + (["C09"] if h == "cursor_write" else []), fns=[B + f for f in fns], text=txt)
+kani("backends::into_and_as_read_words", ["C17"], fns=[B + "IntoReadWords for Buf", B + "AsReadWords for Buf"], text="stack readers start at the write end, queue readers at the beginning; borrowed readers leave the buffer untouched")
 kani("backends::smallvec_backend", ["C17"], kind="bounded", bound="SmallVec<[u8;2]> with <= 3 words", fns=[B + "SmallVec impls"])
 kani("backends::adapters", ["C17"], kind="bounded", bound="3-word iterator, 2 callback writes", fns=[B + "FallibleIteratorReadWords", B + "InfallibleCallbackWriteWords", B + "FallibleCallbackWriteWords"])
 kani("backends::cursor_buf_mut_then_read", ["C20"], fns=[B + "Cursor::buf_mut", B + "<Cursor as ReadWords<Stack>>::read"],
@@ -244,6 +247,8 @@ kani("bits::stack_import_any", ["C16", "C18"], fns=[S + "StackCoder::from_compre
 kani("bits::queue_roundtrip", ["C16", "C18"], fns=[S + "QueueEncoder::write_bit", S + "QueueEncoder::into_compressed", S + "QueueDecoder::read_bit", S + "QueueDecoder::maybe_exhausted"],
      text="export == LSB-first packing zero padded; decoder yields the bits in order, then padding zeros, then None")
 kani("bits::stack_import_then_push", ["C16", "C18"], fns=[S + "StackCoder::from_compressed", S + "StackCoder::write_bit", S + "StackCoder::read_bit"], text="bits pushed onto a re-imported stack pop back unchanged; imported bits untouched")
+kani("bits::derived_decoders", ["C16", "C08"], fns=[S + "StackCoder::{as_decoder,iter,into_decoder,into_iterator}", S + "QueueEncoder::into_decoder"],
+     text="derived decoders / iterators return the bits in LIFO resp. FIFO order; the borrowed ones leave the coder untouched")
 kani("bits::stack_guard", ["C08", "C16"], fns=[S + "StackCoderGuard::new", S + "StackCoderGuard::drop"], text="guard view == export; after drop, write+export == uninspected twin")
 kani("bits::queue_guard", ["C08", "C16"], fns=[S + "QueueEncoderGuard::new", S + "QueueEncoderGuard::drop"], text="guard view == export; after drop, write+export == uninspected twin")
 kani("bits::exp_golomb_u8", ["C16"], timeout=1800, fns=["symbol/exp_golomb.rs::ExpGolomb::{encode_symbol_prefix,encode_symbol_suffix,decode_symbol}"],
